@@ -11,7 +11,7 @@ pub const DEF: PropDef = PropDef {
     id: "C09",
     workload,
     ops,
-    mandatory: &["k_eq_0", "k_window_boundary", "k_not_window_multiple", "k_limb_boundary", "k_eq_bits", "exp_bit_above_k", "lincomb_terms_gt_window", "lincomb_single_term", "exp_wider_than_base", "exp_narrower_than_base", "const_bank", "base_0", "base_m_minus_1"],
+    mandatory: &["k_eq_0", "k_window_boundary", "k_not_window_multiple", "k_limb_boundary", "k_eq_bits", "exp_bit_above_k", "lincomb_terms_gt_window", "lincomb_single_term", "exp_wider_than_base", "exp_narrower_than_base", "const_bank", "base_0", "base_m_minus_1", "modulus_between_third_and_half_of_2^BITS"],
     rule: "cases are (modulus, base(s), exponent(s), bit bound k) for pow / pow_bounded_exp / Pow / PowBoundedExp / MultiExponentiate(BoundedExp) (arrays of 1..4 and slices of 1..6 terms) and (modulus, a_i, b_i) with 1..=40 terms for lincomb_vartime, in the runtime (1,2,4,8,16 limbs; exponent widths 1,2,4,8 mixed), boxed (1..=17 limbs) and compile-time (21-entry bank) implementations; k is exhaustive over 0..=BITS(exponent) for 1-2 limb exponents and window/limb boundary values (+-1) otherwise; exponents 0, 1, 2^j, all-ones, bits set just above k; bases 0, 1, m-1, random; lincomb moduli with 0..=63+ leading zero bits so the accumulation window overflows. non-trivial = named class (k = 0, k at / off a 4-bit window boundary, k at a limb boundary, k = BITS, exponent bit above k, more terms than one window, wider/narrower exponent, bank modulus); distinct by hash",
 };
 
@@ -45,6 +45,12 @@ fn class_k(rep: &mut Rep, k: u32, ebits: u32, e: &BigUint) {
 }
 
 fn class_base(rep: &mut Rep, b: &BigUint, m: &BigUint) {
+    // moduli with 2m < 2^BITS <= 3m (BITS = the limb-rounded size): the almost-Montgomery
+    // accumulator of the boxed ladder may end >= 2m, exercising the second final subtraction
+    let bits = 64 * ((m.bits() as usize + 63) / 64);
+    if m * 2u32 < pow2(bits) && m * 3u32 >= pow2(bits) {
+        rep.class("modulus_between_third_and_half_of_2^BITS");
+    }
     if b.is_zero() {
         rep.class("base_0");
     }
